@@ -11,6 +11,8 @@ pub enum WeightRegime {
     SmallInt,
     Nasty,
     Mixed,
+    /// dyadic with zero-weight edges (distances only)
+    ZeroDyadic,
 }
 
 impl WeightRegime {
@@ -20,6 +22,13 @@ impl WeightRegime {
             WeightRegime::Dyadic => (1 + rng.below(32)) as f64 / 8.0,
             WeightRegime::SmallInt => (1 + rng.below(5)) as f64,
             WeightRegime::Nasty => *rng.pick(&[0.1, 0.2, 0.3, 0.7, 1.1, 0.15, 2.5, 0.30000000000000004]),
+            WeightRegime::ZeroDyadic => {
+                if rng.chance(1, 5) {
+                    0.0
+                } else {
+                    (1 + rng.below(16)) as f64 / 8.0
+                }
+            }
             WeightRegime::Mixed => {
                 if rng.chance(1, 3) {
                     f64::NAN
